@@ -22,7 +22,7 @@ pub fn prop() -> Prop {
         subs: vec![
             Sub::enumerate("triangles_grid", triangles_grid),
             Sub::tape("triangles_random", 16, 150_000, 7_500_000, triangles_random),
-            Sub::tape("triangles_large", 16, 1_500, 75_000, triangles_large),
+            Sub::tape("triangles_large", 16, 3_000, 150_000, triangles_large),
             Sub::tape("polylines", 40, 200_000, 10_000_000, polylines),
         ],
     }
@@ -174,6 +174,8 @@ fn triangles_random(d: &mut Dec, cx: &mut Cx) -> Res {
         dd = a + b - dd;
     }
     let fourth = if o != 0 && orient(a, b, dd) != 0 && orient(a, b, dd).signum() != o.signum() { Some(dd) } else { None };
+    let far = gen::far_offset(d);
+    let (a, b, c, fourth) = (a + far, b + far, c + far, fourth.map(|p| p + far));
     cx.describe(|| format!("{:?} fourth vertex {:?}", Triangle::new(a, b, c), fourth));
     cx.class(if o == 0 { "degenerate" } else if fourth.is_some() { "with_adjacent" } else { "single" });
     cx.nontrivial(nontrivial_triangle(a, b, c));
@@ -184,6 +186,9 @@ fn polylines(d: &mut Dec, cx: &mut Cx) -> Res {
     let r = if d.ratio(1, 4) { 30 } else { 7 };
     let v = gen::polyline_points(d, 6, r);
     let tr = if d.bool() { Point::zero() } else { gen::point(d, 9) };
+    // far placement: through the vertices or through `translate`
+    let far = gen::far_offset(d);
+    let (v, tr) = if d.aux_u(5, 0, 1) == 0 { (v.iter().map(|p| *p + far).collect::<Vec<_>>(), tr) } else { (v, tr + far) };
     cx.describe(|| format!("Polyline {:?} translate {:?}", v, tr));
     let pl = Polyline::new(&v).translate(tr);
     let got: Vec<Point> = pl.points().collect();
@@ -216,6 +221,8 @@ fn polylines(d: &mut Dec, cx: &mut Cx) -> Res {
 /// Triangles spanning 100..=300 px.
 fn triangles_large(d: &mut Dec, cx: &mut Cx) -> Res {
     let Shape::Triangle(t) = gen::large_shape(d, 4, 100, 300) else { unreachable!() };
+    let far = gen::far_offset(d);
+    let t = t.translate(far);
     let [a, b, c] = t.vertices;
     let o = orient(a, b, c);
     let fourth = if o != 0 { Some(a + b - c) } else { None };
